@@ -314,17 +314,25 @@ Inductive decode_outcome (A : Type) :=
 | DEOFError                (* truncated gzip stream *)
 | DZlibError               (* zlib.error: corrupt deflate data *)
 | DValueError              (* not JSON / wrong schema (pydantic ValidationError), bad UTF-8 *)
+| DTypeError               (* wrong schema met by a model's custom __init__ (TlTrack without tlid/track) *)
 | DOk (a : A).
 Arguments NotAFile {A}. Arguments DOSError {A}. Arguments DEOFError {A}.
-Arguments DZlibError {A}. Arguments DValueError {A}. Arguments DOk {A} a.
+Arguments DZlibError {A}. Arguments DValueError {A}. Arguments DTypeError {A}. Arguments DOk {A} a.
 
-Inductive exn := ExOSError | ExEOFError | ExZlibError | ExValueError.
+Inductive exn := ExOSError | ExEOFError | ExZlibError | ExValueError | ExTypeError.
 
-(* storage.load: `except (OSError, ValueError, EOFError, zlib.error)` -> None *)
+(* storage.load: `except (OSError, ValueError, EOFError, zlib.error, TypeError)` -> None *)
 Definition load {A} (o : decode_outcome A) : res exn (option A) :=
   match o with
-  | NotAFile | DOSError | DEOFError | DZlibError | DValueError => Ok None
+  | NotAFile | DOSError | DEOFError | DZlibError | DValueError | DTypeError => Ok None
   | DOk a => Ok (Some a)
+  end.
+
+(* storage.load before the second fix: TypeError was not caught *)
+Definition load_no_typeerror {A} (o : decode_outcome A) : res exn (option A) :=
+  match o with
+  | DTypeError => Raise ExTypeError
+  | _ => load o
   end.
 
 (* storage.load before the fix: `except (OSError, ValueError)` only *)
@@ -333,6 +341,7 @@ Definition load_old {A} (o : decode_outcome A) : res exn (option A) :=
   | NotAFile | DOSError | DValueError => Ok None
   | DEOFError => Raise ExEOFError
   | DZlibError => Raise ExZlibError
+  | DTypeError => Raise ExTypeError
   | DOk a => Ok (Some a)
   end.
 
@@ -494,8 +503,9 @@ Inductive gz_outcome :=
 | GzOk (payload : bytes).
 Inductive js_outcome (A : Type) :=
 | JsValueError           (* bad UTF-8, not JSON, wrong schema: pydantic ValidationError *)
+| JsTypeError            (* wrong schema met by a model's custom __init__: TypeError *)
 | JsOk (a : A).
-Arguments JsValueError {A}. Arguments JsOk {A} a.
+Arguments JsValueError {A}. Arguments JsTypeError {A}. Arguments JsOk {A} a.
 
 Definition decode_stages {A} (gunzip : bytes -> gz_outcome) (validate : bytes -> js_outcome A)
            (b : bytes) : decode_outcome A :=
@@ -503,7 +513,7 @@ Definition decode_stages {A} (gunzip : bytes -> gz_outcome) (validate : bytes ->
   | GzOSError => DOSError
   | GzEOF => DEOFError
   | GzZlib => DZlibError
-  | GzOk p => match validate p with JsValueError => DValueError | JsOk a => DOk a end
+  | GzOk p => match validate p with JsValueError => DValueError | JsTypeError => DTypeError | JsOk a => DOk a end
   end.
 
 (* storage.load applied to what is found under the name (None: no regular file there) *)
@@ -545,3 +555,25 @@ Fixpoint save_rename_first_bad (s0 s : kstate) (ops : list kop) orig newp new (k
     end
   else Some k.
 
+
+(* ------------------------------------------------------------------ restoring = load ; unlink ; apply
+   Core._load_state: data = storage.load(file); unlink (errors ignored); then the controllers
+   apply the state, which may raise for a state that parses but cannot be applied (mixer volume
+   250, ...: ValidationError).  `apply_raises` is that outcome (the controllers are C10's
+   subject).  The file is consumed BEFORE applying. *)
+Definition core_restore {A} (k : fkind) (unlink_ok apply_raises : bool) (o : decode_outcome A)
+  : res exn (option A) * bool :=
+  match core_load k unlink_ok o with
+  | (Ok (Some a), still) => if apply_raises then (Raise ExValueError, still) else (Ok (Some a), still)
+  | r => r
+  end.
+
+(* the other order (apply first, unlink only afterwards): an unappliable state is never consumed *)
+Definition core_restore_late_unlink {A} (k : fkind) (unlink_ok apply_raises : bool) (o : decode_outcome A)
+  : res exn (option A) * bool :=
+  match load o with
+  | Ok (Some a) =>
+      if apply_raises then (Raise ExValueError, match k with FMissing => false | _ => true end)
+      else core_load k unlink_ok o
+  | _ => core_load k unlink_ok o
+  end.
